@@ -2,7 +2,10 @@
 
 package fontscan
 
-import "github.com/go-text/typesetting/font"
+import (
+	"github.com/go-text/typesetting/font"
+	"github.com/go-text/typesetting/language"
+)
 
 func VerifCoverages(c font.Cmap) (RuneSet, ScriptSet) {
 	rs, ss, _ := newCoveragesFromCmap(c, nil)
@@ -28,6 +31,29 @@ func VerifRetainBestIn(all []font.Aspect, cands []int, query font.Aspect) []int 
 	}
 	return fs.retainsBestMatches(append([]int(nil), cands...), query)
 }
+
+// VerifCrible returns the substitution-expanded family list of a query under a script:
+// family -> {score, 1 if strong}, as used to order the fallback candidates.
+func VerifCrible(families []string, script language.Script) map[string][2]int {
+	fc := make(familyCrible)
+	norm := make([]string, len(families))
+	for i, f := range families {
+		norm[i] = font.NormalizeFamily(f)
+	}
+	fc.fillWithSubstitutionsList(norm, language.ScriptToLang[script])
+	out := make(map[string][2]int, len(fc))
+	for k, v := range fc {
+		s := 0
+		if v.strong {
+			s = 1
+		}
+		out[k] = [2]int{v.score, s}
+	}
+	return out
+}
+
+// VerifIsGeneric reports whether family is a generic family keyword.
+func VerifIsGeneric(family string) bool { return isGenericFamily(font.NormalizeFamily(family)) }
 
 type VerifIndex = systemFontsIndex
 
